@@ -98,7 +98,11 @@ class Merge(Expr):
         )
 
     def _filter_passthrough_available(self, parent, dependents):
-        if is_filter_pushdown_available(self, parent, dependents):
+        # A reduction of the merged frame inside the predicate is not the same
+        # reduction of one of the inputs
+        if is_filter_pushdown_available(
+            self, parent, dependents, allow_reduction=False
+        ):
             predicate = parent.predicate
             # This protects against recursion, no need to separate ands if the first
             # condition violates the join direction
